@@ -46,7 +46,8 @@ func (self *Compiler) enterModule(name string) {
 }
 
 func (self *Compiler) mangleFn(input string) string {
-	mangled := fmt.Sprintf("@%s_%s", self.currModule, input)
+	// The separator cannot occur in identifiers: with `_`, `b_f` of module `a` and `f` of module `a_b` collided.
+	mangled := fmt.Sprintf("@%s::%s", self.currModule, input)
 	return mangled
 }
 
@@ -72,7 +73,7 @@ func (self *Compiler) mangleVar(input string) string {
 		self.varNameMangle[input]++
 	}
 
-	mangled := fmt.Sprintf("@%s_%s%d", self.currModule, input, cnt)
+	mangled := fmt.Sprintf("@%s::%s#%d", self.currModule, input, cnt)
 	(*self.currScope)[input] = mangled
 
 	return mangled
